@@ -28,12 +28,14 @@ type vfDisk struct {
 	seg     map[string][]byte // direct-I/O files by full path (symbolic mode)
 	names   map[*os.File]string
 	files   map[string][]byte // FileIO files by full path (symbolic mode)
-	ops     int               // I/O operations performed so far
-	crashAt int               // crash when ops reaches this value (-1: never)
-	tornLen int               // bytes of a block write that reach the disk when the crash hits it
+	crash   int               // which I/O step of the next registry write kills the process (vfCrash*)
+	tornLen int               // bytes of the block write that reach the disk when it is the crash point (may be symbolic)
+	cowLen  int               // bytes of the backup file that reach the disk when its write is the crash point
 	writes  int               // completed segment writes
 	base    string            // stores base folder: "/d" in the engine, a scratch directory natively
 }
+
+const vfSlot = 7 // slot of the handle the single-handle harnesses store (any slot behaves alike: C24)
 
 var vfD *vfDisk
 var vfErrNotExist = errors.New("vf: no such file or directory")
@@ -43,7 +45,7 @@ var vfErrNotExist = errors.New("vf: no such file or directory")
 // type as the DirectIO doing ordinary file I/O), so counterexamples replay against the
 // real file system.
 func vfNewDisk() *vfDisk {
-	vfD = &vfDisk{seg: map[string][]byte{}, names: map[*os.File]string{}, files: map[string][]byte{}, crashAt: -1, base: "/d"}
+	vfD = &vfDisk{seg: map[string][]byte{}, names: map[*os.File]string{}, files: map[string][]byte{}, base: "/d"}
 	if !zzvf.Symbolic() {
 		dir, err := os.MkdirTemp("", "vfdisk")
 		if err != nil {
@@ -55,11 +57,13 @@ func vfNewDisk() *vfDisk {
 	return vfD
 }
 
-// step counts one I/O operation and crashes if this is the chosen one.
-func (d *vfDisk) step() bool {
-	d.ops++
-	return d.ops == d.crashAt
-}
+// Crash points of one registry block write (createCow, block write, deleteCow).
+const (
+	vfCrashNone = iota
+	vfCrashCowWrite   // the backup file write is cut after cowLen bytes
+	vfCrashBlockWrite // the block write is cut after tornLen bytes
+	vfCrashCowRemove  // the process dies after the block write, before the backup is removed
+)
 
 func (d *vfDisk) putSeg(path string, b []byte) {
 	if zzvf.Symbolic() {
@@ -118,12 +122,15 @@ func (d *vfDisk) Open(ctx context.Context, filename string, flag int, permission
 
 func (d *vfDisk) WriteAt(ctx context.Context, file *os.File, block []byte, offset int64) (int, error) {
 	if !zzvf.Symbolic() {
-		if d.step() {
+		if d.crash == vfCrashBlockWrite {
 			file.WriteAt(block[:d.tornLen], offset)
 			zzvf.Crash()
 		}
 		n, err := file.WriteAt(block, offset)
 		d.writes++
+		if d.crash == vfCrashCowRemove {
+			zzvf.Crash() // natively the backup removal cannot be intercepted: die right after the write
+		}
 		return n, err
 	}
 	name := d.names[file]
@@ -133,9 +140,12 @@ func (d *vfDisk) WriteAt(ctx context.Context, file *os.File, block []byte, offse
 		copy(nd, data)
 		data = nd
 	}
-	if d.step() {
-		// torn write: only a prefix reaches the disk, then the process dies
-		copy(data[offset:], block[:d.tornLen])
+	if d.crash == vfCrashBlockWrite {
+		// torn write: only the first tornLen bytes reach the disk, then the process dies.
+		// tornLen may be symbolic: each byte is new-or-old by comparison, no case split.
+		for i := range block {
+			data[int(offset)+i] = zzvf.IteByte(i < d.tornLen, block[i], data[int(offset)+i])
+		}
 		d.seg[name] = data
 		zzvf.Crash()
 	}
@@ -172,9 +182,9 @@ type vfFileIO struct{ d *vfDisk }
 func vfNewFileIO() FileIO { return vfFileIO{vfD} }
 
 func (f vfFileIO) WriteFile(ctx context.Context, name string, data []byte, perm os.FileMode) error {
-	if f.d.step() {
-		// a crashed WriteFile leaves any prefix of the data (tornLen is reused as the prefix length)
-		n := f.d.tornLen
+	if f.d.crash == vfCrashCowWrite {
+		// a crashed WriteFile leaves a prefix of the data
+		n := f.d.cowLen
 		if n > len(data) {
 			n = len(data)
 		}
@@ -195,7 +205,7 @@ func (f vfFileIO) Remove(ctx context.Context, name string) error {
 	if _, ok := f.d.files[name]; !ok {
 		return vfErrNotExist
 	}
-	if f.d.step() {
+	if f.d.crash == vfCrashCowRemove {
 		zzvf.Crash() // died before the removal happened
 	}
 	delete(f.d.files, name)
